@@ -236,3 +236,25 @@ Theorem C19_check_sound : forall k, c19_wf k = true ->
   agree_of (c19_verdict k) = true -> holds_of (c19_verdict k) = true.
 Proof. exact (verdict_sound C19_gen_breaks_ok). Qed.
 Print Assumptions C19_check_sound.
+
+(* ---- the Spec on the examples of the docstrings and of DESIGN Appendix B ("required" column) ------- *)
+Example C19_spec_docstring_examples :
+  (* list(iter_splitlines('\nhi\nbye\n')) == ['', 'hi', 'bye', ''] *)
+  iter_splitlines_spec [10; 104; 105; 10; 98; 121; 101; 10] = [[]; [104; 105]; [98; 121; 101]; []] /\
+  (* list(iter_splitlines('\r\nhi\rbye\r\n')) == ['', 'hi', 'bye', ''] *)
+  iter_splitlines_spec [13; 10; 104; 105; 13; 98; 121; 101; 13; 10] = [[]; [104; 105]; [98; 121; 101]; []] /\
+  (* list(iter_splitlines('')) == [] *)
+  iter_splitlines_spec [] = [] /\
+  (* #36: 'a 28b 29c' is one line; 'a\u2028b' is two *)
+  iter_splitlines_spec [97; 32; 50; 56; 98; 32; 50; 57; 99] = [[97; 32; 50; 56; 98; 32; 50; 57; 99]] /\
+  iter_splitlines_spec [97; 8232; 98] = [[97]; [98]] /\
+  (* #37: b'abc\n' -> ['', 'abc'];  b'\nb' -> ['b', ''];  b'\n\na\n' -> ['', 'a', '', ''];  b'\n' -> ['', ''] *)
+  reverse_lines_spec [97; 98; 99; 10] = [[]; [97; 98; 99]] /\
+  reverse_lines_spec [10; 98] = [[98]; []] /\
+  reverse_lines_spec [10; 10; 97; 10] = [[]; [97]; []; []] /\
+  reverse_lines_spec [10] = [[]; []] /\
+  reverse_lines_spec [] = [] /\
+  (* indent('\nabc\ndef\n\nxyz\n', '  ') == '\n  abc\n  def\n\n  xyz\n'  (tests/test_strutils.py) *)
+  indent_spec [10; 97; 98; 99; 10; 100; 101; 102; 10; 10; 120; 121; 122; 10] [32; 32] [10]
+  = [10; 32; 32; 97; 98; 99; 10; 32; 32; 100; 101; 102; 10; 10; 32; 32; 120; 121; 122; 10].
+Proof. exact (conj eq_refl (conj eq_refl (conj eq_refl (conj eq_refl (conj eq_refl (conj eq_refl (conj eq_refl (conj eq_refl (conj eq_refl (conj eq_refl eq_refl)))))))))). Qed.
